@@ -634,7 +634,7 @@ impl rustc_driver::Callbacks for Cb {
                 out.push_str(&cx.body(def, body, k));
                 out.push('\n');
                 // promoted constants of the body (e.g. `&[..]` tables)
-                if !matches!(kind, DefKind::Const { .. } | DefKind::AssocConst { .. } | DefKind::Static { .. }) {
+                {
                     let promoted = tcx.promoted_mir(def);
                     for (pi, pb) in promoted.iter_enumerated() {
                         out.push(',');
